@@ -695,32 +695,62 @@ class Exec:
         raise Unsupported("unary op")
 
     def ex_BoolOp(self, n, pc, env):
-        vals = []
+        """`a or b or ...` / `a and b and ...` with Python's value semantics: the result is the first decisive operand (truthy for
+        `or`, falsy for `and`), else the last one; an operand is evaluated only under the condition that the earlier ones were not
+        decisive."""
+        is_or = isinstance(n.op, ast.Or)
+        vals, ts = [], []
+        cur_pc = list(pc)
         for v in n.values:
-            x = self.eval(v, pc, env)
-            vals.append(x)
-            # short-circuit on concrete operands (the remaining operands are not evaluated, as in Python)
+            x = self.eval(v, cur_pc, env)
             try:
                 t = truth(x)
             except Unsupported:
                 t = None
-            if isinstance(n.op, ast.And) and t is False:
-                return False if isinstance(x, bool) or len(vals) > 1 else x
-            if isinstance(n.op, ast.Or) and t is True:
-                if isinstance(x, bool) or is_sym(x):
-                    return True
+            if isinstance(t, bool) and t != is_or and len(vals) + 1 < len(n.values):
+                continue  # concretely non-decisive and not the last operand: Python moves on, the operand is never the result
+            vals.append(x)
+            ts.append(t)
+            if isinstance(t, bool) and t == is_or:
+                break  # concretely decisive: the remaining operands are not evaluated
+            if t is not None and not isinstance(t, bool):
+                cur_pc = cur_pc + [z3.Not(t) if is_or else t]
+        if len(vals) == 1:
+            return vals[0]
+        if all(isinstance(v, (bool, z3.BoolRef)) for v in vals):
+            return z_or(*ts) if is_or else z_and(*ts)
+        if any(t is None for t in ts[:-1]):
+            raise Unsupported("and/or over an operand without a modelled truth value")
+
+        def as_value(x):
+            if hasattr(x, "hv_truth") and hasattr(x, "val"):  # an optional number (dict.get without default): its value when it is truthy
+                return x.val
+            if isinstance(x, (int, float, str)) or is_sym(x):
                 return x
-        # value semantics (`a or b` returning operands) only when used as boolean; enforce bool-ness
-        ts = [truth(v) for v in vals]
-        for v in vals:
-            if not isinstance(v, (bool, z3.BoolRef)):
-                # python returns the operand, not a bool; only support when every operand is boolean-like
-                if isinstance(n.op, ast.Or) and len(vals) == 2 and not is_sym(vals[0]):
-                    return vals[0] if truth(vals[0]) else vals[1]
-                if isinstance(n.op, ast.Or) and len(vals) == 2 and isinstance(vals[0], z3.ArithRef) and not isinstance(vals[1], (bool, z3.BoolRef)):
-                    return z_ite(vals[0] != 0, vals[0], vals[1])  # `x or y` on numbers: x unless it is 0
-                raise Unsupported("and/or over non-boolean operands")
-        return z_and(*ts) if isinstance(n.op, ast.And) else z_or(*ts)
+            raise Unsupported("and/or returning a non-scalar operand under a symbolic condition")
+
+        res = vals[-1]
+        if not (isinstance(res, (int, float, str)) or is_sym(res)):
+            raise Unsupported("and/or returning a non-scalar operand under a symbolic condition")
+        def kind(x):
+            if isinstance(x, (bool, z3.BoolRef)):
+                return "bool"
+            if isinstance(x, (int, float, z3.ArithRef)):
+                return "num"
+            if isinstance(x, (str, z3.SeqRef)):
+                return "str"
+            return "other"
+
+        for x, t in zip(reversed(vals[:-1]), reversed(ts[:-1])):
+            if kind(as_value(x)) != kind(res) or kind(res) == "other":
+                raise Unsupported("and/or over operands of different kinds under a symbolic condition")
+            if is_or:
+                res = z_ite(t, as_value(x), res)
+            else:
+                if hasattr(x, "hv_truth") and hasattr(x, "val"):
+                    raise Unsupported("`optional and y`: the falsy operand may be None")
+                res = z_ite(t, res, as_value(x))
+        return res
 
     def ex_Compare(self, n, pc, env):
         left = self.eval(n.left, pc, env)
